@@ -18,14 +18,20 @@ type CaseC04 struct {
 	GoEmpty bool   `json:"go_empty,omitempty"` // XmlGoEmptyElemSyntax for the encoders
 	Prefix  string `json:"prefix"`
 	Ind     string `json:"ind"`
+	Keep    bool   `json:"keep_spaces,omitempty"` // DisableTrimWhiteSpace(true): blanks at the edges of text are content, "the same text" includes them
 }
 
 func init() { register("C04", checkC04) }
 
 func genC04(t *rapid.T) CaseC04 {
 	g := XGen{Opts: defaultOpts(), MixedText: false, Extras: true, Namespaces: true, Wide: true, SeqKeys: true}
-	c := CaseC04{Doc: g.Elem(t, rapid.IntRange(1, 4).Draw(t, "depth"))}
+	keep := rapid.IntRange(0, 3).Draw(t, "keepspaces") == 0
+	g.Opts.KeepSpaces = keep
+	c := CaseC04{Doc: g.Elem(t, rapid.IntRange(1, 4).Draw(t, "depth")), Keep: keep}
 	blanks := []string{"", " ", "  ", "\t", "    "}
+	if keep {
+		blanks = []string{"", "\t", "\t\t"} // an indent of spaces is content under keep-spaces
+	}
 	c.Prefix = rapid.SampledFrom(blanks).Draw(t, "prefix")
 	c.Ind = rapid.SampledFrom(blanks).Draw(t, "ind")
 	c.GoEmpty = rapid.IntRange(0, 3).Draw(t, "goempty") == 0
@@ -83,9 +89,15 @@ func checkC04(c CaseC04, info *Info) *Failure {
 		mxj.XmlGoEmptyElemSyntax()
 		info.Class("Go empty-element syntax")
 	}
+	cut := "\t\r\n "
+	if c.Keep {
+		mxj.DisableTrimWhiteSpace(true)
+		cut = "\t\r\n"
+		info.Class("keep-spaces: blanks at the edges of text are content")
+	}
 	bystanders()
 	doc := c.Doc.String()
-	want, err := rawTokens([]byte(doc))
+	want, err := rawTokensTrim([]byte(doc), cut)
 	if err != nil {
 		info.Skip = "generator produced a document the tokenizer rejects"
 		return nil
@@ -113,6 +125,9 @@ func checkC04(c CaseC04, info *Info) *Failure {
 		case "BeautifyXml":
 			x, err = mxj.BeautifyXml([]byte(doc), c.Prefix, c.Ind)
 		case "Formatted":
+			if c.Keep {
+				continue // the formatted decoder removes blank runs by definition
+			}
 			// NewMapFormattedXmlSeq on the indented document (only where its documented
 			// blank-run removal does not touch CDATA/comment content)
 			squeezed := fmtRe.ReplaceAll(indented, []byte("><"))
@@ -131,7 +146,7 @@ func checkC04(c CaseC04, info *Info) *Failure {
 			return failf("encode-error", "%s doc %q: %v", mode, doc, err)
 		}
 		disturb()
-		got, terr := rawTokens(x)
+		got, terr := rawTokensTrim(x, cut)
 		if terr != nil {
 			return failf("not-well-formed", "%s doc %q -> %q: %v", mode, doc, x, terr)
 		}
